@@ -295,7 +295,8 @@ class Interp:
             v_ = self.ev(st.value) if st.value is not None else None
             raise _Signal("return", UNK if self.tainted else v_)
         if isinstance(st, ast.Raise):
-            raise _Signal("unknown-path" if self.tainted else "raise")
+            exc = st.exc.func if isinstance(st.exc, ast.Call) else st.exc
+            raise _Signal("unknown-path" if self.tainted else "raise", exc.id if isinstance(exc, ast.Name) else None)
         if isinstance(st, ast.Break):
             raise _Signal("break")
         if isinstance(st, ast.Continue):
@@ -873,7 +874,7 @@ def run_function(f, params: Dict[str, Any], prog=None, enums=None) -> Tuple[str,
         if s.kind == "return":
             return "return", s.value
         if s.kind == "raise":
-            return "raise", None
+            return "raise", s.value
         return "unknown", s.kind
     return "return", None
 
